@@ -97,7 +97,7 @@ NOTE_FIX = {
  "C02": "The DOM parser's acceptance (parse_value/array/object) is validated by the correspondence, not transcribed; simdutf8 is modelled by Spec.Ref.utf8_valid (proved equal to the byte automaton of the Unicode standard). Both directions of the skipper and of the strict reference parser are theorems (skip_text_iff, strict_text_iff).",
  "C11": "The model works on the parsed tree (objects); arrays and the text-level walk are covered by the correspondence. Soundness and completeness of the search model and of the path-trie construction are theorems (get_many_model_correct).",
  "C12": "The text-level stepping functions (parse_array_elem_lazy / parse_entry_lazy) are tied by the correspondence against Spec.Ref.ref_array_iter / ref_object_iter, whose soundness and completeness are theorems (IterSound, IterObjSound, IterComplete).",
- "C07": "PARTIAL: the Eisel-Lemire path is translated and proved panic-free and well-formed, its rounding correctness and the big-decimal slow path are validated against the specification, not proved; the digit scanner of parse_number is modelled for plain integers only (the rest is validated). Spec/Num.v's rounding is by exact integer arithmetic (rne_div proved to be THE nearest-even quotient) and, for the normal range, is proved to be Flocq's round radix2 (FLT_exp (-1074) 53) ZnearestE (Model/NumFlocq.v); the subnormal range and the decoding of bit patterns to reals are not covered by that equivalence. Flocq theorems depend on the four Reals axioms of the standard library.",
+ "C07": "PARTIAL: the Eisel-Lemire path is translated and proved panic-free and well-formed, its rounding correctness and the big-decimal slow path are validated against the specification, not proved; the digit scanner of parse_number is modelled for plain integers only (the rest is validated). Spec/Num.v's rounding is by exact integer arithmetic (rne_div proved to be THE nearest-even quotient) and is proved to be Flocq's round radix2 (FLT_exp (-1074) 53) ZnearestE for every positive rational, normal and subnormal range (Model/NumFlocq.v); the packing of exponent and quotient into a bit pattern is not related to Flocq's B2R. Flocq theorems depend on the four Reals axioms of the standard library.",
 }
 for k, v in EXTRA.items():
     C[k]["text"] += v
